@@ -539,6 +539,12 @@ func C09(tier string) {
 		}(w)
 	}
 	wg.Wait()
+	// operation sequences (same process, state carried over): no call may hang or panic
+	sdepth := 4
+	if tier == "thorough" {
+		sdepth = 5
+	}
+	iccSequences(r, sdepth, "sequence", false, true)
 	r.Eval(evals)
 	r.DistinctN(evals)
 	r.Set("case_space", total)
